@@ -30,6 +30,7 @@ GUARDS = [
     ('g_if_time', r'fn\s+_gather_cond_chain\s*\(', 'ifif_jmp.time_arg.is_some(){returnErr(NoCondChain);}'),
     ('g_if_dir', r'fn\s+_gather_cond_chain\s*\(', 'ifif_jmp.direction_given_src(src)==Direction::Backwards{returnErr(NoCondChain);}'),
     ('g_if_rc', r'fn\s+_gather_cond_chain\s*\(', 'ifif_jmp.dest_refcount>1{returnErr(NoCondChain);}'),
+    ('g_if_cnt', r'fn\s+as_binop_cond\s*\(', 'if!matches!(a.value,ast::Expr::XcrementOp{..})'),
     ('g_un_time', r'fn\s+_gather_cond_chain\s*\(', 'ifuncond_jmp.time_arg.is_some(){returnErr(NoCondChain);}'),
     ('g_un_kind', r'fn\s+_gather_cond_chain\s*\(', 'if!matches!(uncond_jmp.kind,JmpKind::Uncond){returnErr(NoCondChain);}'),
     ('g_un_dir', r'fn\s+_gather_cond_chain\s*\(', 'ifuncond_jmp.direction_given_src(uncond_src)==Direction::Backwards{returnErr(NoCondChain);}'),
